@@ -154,7 +154,11 @@ func checkC14(p *Program, r *Reporter) {
 	}
 	// arms in the handler: comparisons of the StateAt result with constants
 	arms := map[int64]*ssa.BasicBlock{}
-	for _, b := range h.Blocks {
+	var hBlocks []*ssa.BasicBlock
+	for _, cf := range cluster(h) {
+		hBlocks = append(hBlocks, cf.Blocks...)
+	}
+	for _, b := range hBlocks {
 		ifi, ok := b.Instrs[len(b.Instrs)-1].(*ssa.If)
 		if !ok {
 			continue
